@@ -14,6 +14,8 @@ CONSTANTS
   HasObs = TRUE
   PubOnly = FALSE
   Split = FALSE
+  StartFirst = TRUE
+  MaxClose = 0
   MaxEnv = 3
   MaxNotify = 1
   MaxTime = 1
